@@ -18,7 +18,7 @@ func init() {
 		Explanation: "Structural necessary conditions of 'Shamir shares reconstruct at threshold and reconstruction is only attempted at threshold', on every CFG path / call site: " +
 			"(1) randomness hygiene in sdk/helper/shamir: the package imports no math/rand and its only randomness callees are crypto/rand.Read / crypto/rand.Int(crypto/rand.Reader, ..) with checked errors; makePolynomial stores the intercept in coefficient 0 and fills coefficients[1:] (all of them) from crypto/rand; shuffledXCoordinates enumerates 1..255 (never 0, no uint8 wrap) and permutes by swaps (which permutation is drawn is not a clause: x-coordinates are public share tags, only their being distinct and non-zero matters to the property); Split draws a fresh polynomial inside the per-byte loop, of degree threshold-1, evaluates it at the share's own x and writes that same x as the share tag; " +
 			"(2) input validation: Split reaches its randomness and its success return only across its five refusals; Combine reaches interpolation only across len(parts)>=2, len(parts[0])>=2, a loop that length-checks every part and a loop that refuses a repeated x (map lookup, then map update with the same key) and interpolates exactly the checked x values at 0; evaluate and div panic on a zero argument/divisor before any arithmetic; " +
-			"(3) threshold accounting at every caller of shamir.Combine in internal/vault: the call (and the threshold-1 shortcut that reads P[0]) is behind len(P) >= T.SecretThreshold for the same slice P it passes, the shortcut additionally behind T.SecretThreshold == 1, T comes from the stored seal configuration (or is the configuration under verification) and, where both the recovery and the barrier configuration are candidates, is the recovery configuration exactly on the RecoveryKeySupported() arm (resolved path-sensitively), the error is checked and a failure returns no key; every write of a progress slice is nil or append(P, share) and every append is behind a loop over the same P that compares every recorded share with the new one and refuses a match; the accounting runs under the owning lock; callers of Combine/Split are a frozen set; " +
+			"(3) threshold accounting at every caller of shamir.Combine in internal/vault: the call (and the threshold-1 shortcut that reads P[0]) is behind len(P) >= T.SecretThreshold for the same slice P it passes, the shortcut additionally behind T.SecretThreshold == 1, T comes from the stored seal configuration (or is the configuration under verification) and, where both the recovery and the barrier configuration are candidates, is the recovery configuration exactly on the RecoveryKeySupported() arm (resolved path-sensitively), the error is checked and a failure returns no key; every write of a progress slice is nil or append(P, share) and every append is behind a loop over the same P that compares every recorded share with the new one and refuses a match, and every such comparison reads the elements of the very slice field the share is appended to; the accounting runs under the owning lock; callers of Combine/Split are a frozen set; " +
 			"(4) Split callers pass (cfg.SecretShares, cfg.SecretThreshold) of one configuration, behind SecretShares != 1, on a freshly generated key, with checked errors; SealConfig.Validate/baseValidate refuse threshold<1, shares<1, >255, threshold>shares and threshold<2 with several shares, and stored configurations are validated before they are cached; " +
 			"(5) shape of the GF(2^8) code: add is XOR of its operands; mult has no calls, no memory indexing and no operand-dependent branch (a fixed 8-round loop) and reduces by the low byte of an irreducible degree-8 polynomial; inverse is a straight-line chain of mult calls whose exponent is 254 mod 255; div multiplies the dividend by the inverse of the guarded divisor; evaluate is Horner's rule from the top coefficient down to coefficient 0; interpolatePolynomial forms, for every pair i != j of sample indices, (x+x_j)/(x_i+x_j), accumulates the product from 1 and the sum of y_i*basis from 0; " +
 			"(6, gaps) the key rebuilt from the supplied shares is authenticated before anything acts on it: UpdateRotation reaches updateRecoveryRotation/updateRootRotation only across a successful VerifyRecoveryKey whenever recovery keys are involved and updateRootRotation / BarrierRekeyUpdate / RecoveryRekeyUpdate generate or install keys only across VerifyRecoveryKey, or for a Shamir barrier SetAesGcmKeyBytes + GetStoredKeys + VerifyRoot, of that key; lockedGenerateRootUpdate calls strategy.generate only across a successful strategy.authenticate of the rebuilt key, whose implementations, AuthenticateRootKey and unsealKeyToRootKey report success / return a key only across their verification calls on the key they were given; getUnsealKey returns a recovery key only across VerifyRecoveryKey; VerifyRotation / RekeyVerify install the rebuilt key only across ConstantTimeCompare(rebuilt key, VerificationKey) == 1; UnsealNamespace and Core.unsealFragment reach the root-key lookup and the barrier only with the non-nil key unsealFragment returned; once len(Parts) >= threshold getUnsealKey discards the recorded shares on every exit.",
